@@ -14,6 +14,24 @@ from . import source as src
 from .tmpl import Tmpl, Atom, mk as tmpl_mk, join as tmpl_join, is_strlike, to_tmpl_part
 
 
+class ObjectBuiltin:
+    """`object`: object.__new__(cls) makes a bare instance of the abstract class object cls"""
+
+    def getattr(self, interp, st, attr, node):
+        if attr == "__new__":
+            yield st, self
+            return
+        raise Unsupported(f"object.{attr}")
+
+    def call(self, interp, st, args, kwargs, node):
+        (cls,) = args
+        o = SymObj("instance", {"__class__": cls})
+        o.closed = True
+        key = f"__new{o.uid}"
+        st.ghost[key] = o
+        yield st, o
+
+
 class ModuleVal:
     def __init__(self, name):
         self.name = name
@@ -59,6 +77,10 @@ class ExtMixin:
         if name in m.assigns:
             try:
                 return _lit(ast.literal_eval(m.assigns[name]))
+            except Exception:
+                pass
+            try:
+                return _lit(_const_eval(m.assigns[name], lambda nm: self.lookup_in_module(relpath, nm, depth + 1)))
             except Exception:
                 return None
         if name in m.imports:
@@ -177,6 +199,15 @@ class ExtMixin:
         if isinstance(o, SymObj):
             if attr in o.attrs:
                 return True
+            klass = o.attrs.get("__class__")
+            if isinstance(klass, SymObj):
+                if attr in klass.attrs:
+                    return True
+                ic = getattr(klass, "instance_class", None)
+                if ic and self.find_method(ic, attr):
+                    return True
+                if attr in getattr(klass, "absent", ()) or getattr(o, "closed", False):
+                    return False
             if attr in getattr(o, "absent", ()):
                 return False
             if self.reg.lookup_method(o.cls, attr) is not None or self.find_method(o.cls, attr) is not None:
@@ -269,6 +300,12 @@ class ExtMixin:
             return z3.If(x >= 0, x, -x)
         return abs(x)
 
+    def bi_np_array(self, st, f, args, kw, node):
+        (x,) = args
+        if isinstance(x, PList) and all(is_intlike(v) for v in x.items):
+            return PList(list(x.items))  # a 1-d integer array: only its items are observed
+        raise Unsupported("np.array of this value")
+
     def bi_np_prod(self, st, f, args, kw, node):
         """numpy.prod of a concrete-length sequence of integers (mathematical product; numpy's int64 wrap-around is
         outside the model: sizes are assumed < 2^62)"""
@@ -279,6 +316,40 @@ class ExtMixin:
                 raise Unsupported("np.prod of non-integers")
             out = out * v
         return out
+
+    def bi_bytes(self, st, f, args, kw, node):
+        x = args[0]
+        if hasattr(x, "utf8") and (len(args) == 1 or args[1] in ("utf8", "utf-8")):
+            return x.utf8()
+        raise Unsupported("bytes() of this value")
+
+    def bi_reversed(self, st, f, args, kw, node):
+        (x,) = args
+        return PList(list(reversed(self.concrete_items(st, x))))
+
+    def bi_list_index(self, st, f, args, kw, node):
+        (v,) = args
+        items = self.concrete_items(st, f.bound)
+        for k, x in enumerate(items):
+            e = self.equal(st, x, v)
+            if e is True:
+                return k
+            if e is not False:
+                raise Unsupported("symbolic equality in list.index")
+        self.safety(st, "ValueError", False, node)
+        raise Unsupported("list.index: value not found")
+
+    def bi_all(self, st, f, args, kw, node):
+        from .interp import zand
+
+        (x,) = args
+        return zand(*[self.truth(st, v) for v in self.concrete_items(st, x)])
+
+    def bi_any(self, st, f, args, kw, node):
+        from .interp import zor
+
+        (x,) = args
+        return zor(*[self.truth(st, v) for v in self.concrete_items(st, x)])
 
     def bi_dict(self, st, f, args, kw, node):
         if args:
@@ -389,3 +460,34 @@ class LoopSpec:
                     else:
                         yield st2, out
         yield from interp.exec_block(sth, s.orelse)
+
+
+def _const_eval(n, names=None):
+    """integer constant expressions such as -(2**63); lists of them; np.array([...], dtype=...) of them (as a list)"""
+    if isinstance(n, ast.Constant) and isinstance(n.value, int) and not isinstance(n.value, bool):
+        return n.value
+    if isinstance(n, ast.Name) and names is not None:
+        v = names(n.id)
+        if isinstance(v, int) and not isinstance(v, bool):
+            return v
+        raise ValueError("name is not an integer constant")
+    if isinstance(n, ast.List):
+        return [_const_eval(e, names) for e in n.elts]
+    if isinstance(n, ast.Call) and ast.unparse(n.func) in ("np.array", "numpy.array") and len(n.args) == 1:
+        v = _const_eval(n.args[0], names)
+        if isinstance(v, list):
+            return v
+        raise ValueError("np.array of non-list")
+    if isinstance(n, ast.UnaryOp) and isinstance(n.op, ast.USub):
+        return -_const_eval(n.operand, names)
+    if isinstance(n, ast.BinOp):
+        a, b = _const_eval(n.left, names), _const_eval(n.right, names)
+        if isinstance(n.op, ast.Add):
+            return a + b
+        if isinstance(n.op, ast.Sub):
+            return a - b
+        if isinstance(n.op, ast.Mult):
+            return a * b
+        if isinstance(n.op, ast.Pow) and 0 <= b <= 128:
+            return a ** b
+    raise ValueError("not an integer constant expression")
